@@ -369,7 +369,25 @@ def run(ctx, repo, tier):
                 break
         early = [t_ for t_ in trunc if first_sort is None or t_.lineno < first_sort.lineno]
         nested = [n_ for n_ in nested if not (isinstance(n_, ast.Assign) and isinstance(n_.targets[0], ast.Tuple))]
-        if early:
+        # the permutation must not depend on an option: descending by VALUE, always
+        perm_names = {st_.value.slice.id for st_ in ast.walk(gd.node) if isinstance(st_, ast.Assign) and isinstance(st_.value, ast.Subscript) and
+                      isinstance(st_.value.slice, ast.Name) and src(st_.value.value) == vname}
+        gparams = set(gd.params())
+        cond_perm = []
+        for st_ in ast.walk(gd.node):
+            if isinstance(st_, ast.Assign) and len(st_.targets) == 1 and isinstance(st_.targets[0], ast.Name) and st_.targets[0].id in perm_names:
+                p_ = getattr(st_, "_parent", None)
+                while p_ is not None and p_ is not gd.node:
+                    if isinstance(p_, ast.If) and any(isinstance(x_, ast.Name) and x_.id in gparams for x_ in ast.walk(p_.test)):
+                        cond_perm.append((st_, p_))
+                    p_ = getattr(p_, "_parent", None)
+        if cond_perm and not early:
+            st_, if_ = cond_perm[0]
+            ctx.violate("ORD", "C14.decomp.values", "the order in which eigenpairs are returned depends on an option of the solver call "
+                        f"(`{src(if_.test)[:60]}`): for some option values the eigenvalues are not descending by value, element 0 is not the "
+                        "largest (zero) eigenvalue and column 0 not the stationary vector", dw, norm_stmt(st_),
+                        witness="e.g. which='SR' / 'LM' with a shift: ascending or by-magnitude order")
+        elif early:
             ctx.violate("ORD", "C14.decomp.values", "the eigenvalue array is truncated BEFORE it is sorted: a dense solver returns the spectrum in no "
                         "particular order, so an arbitrary subset survives - the largest (zero) eigenvalue and the stationary vector may be "
                         "cut away", dw, norm_stmt(early[0]), witness="slice of the unsorted eigenvalues precedes the descending sort")
